@@ -8,7 +8,7 @@
 #       - the extracted model's `clean` (correspondence of the model with the code).
 #     The run log is compared with a Python-side expectation: commands that must not run / must run / run at most once.
 # PARTIAL by design: the world invariant over the real file system is sampled here; the proofs cover the rule level.
-import os, json, shutil, random, stat, copy
+import os, json, shutil, random, stat, copy, sqlite3
 import vlib
 from vlib import hx
 
@@ -123,13 +123,17 @@ class Project:
         return "\n".join(L) + "\n"
 
     # ---- encoding for the model
-    def model_request(self, sources, target):
+    def model_desc(self):
         tl = {"shell": "s", "phony": "p", "mkdir": "m", "symlink": "l"}
         def fl(l):
             return "." if not l else ",".join(hx(x.encode()) for x in l)
         cmds = ";".join(":".join([tl[d["tool"]], hx(n.encode()), fl(d["inputs"]), fl(d["outputs"]),
                                   hx(d["tag"].encode()), hx(d["contents"].encode())]) for n, d in self.cmds.items())
         tg = ";".join("%s/%s" % (hx(t.encode()), fl(ns)) for t, ns in self.targets.items())
+        return cmds, tg
+
+    def model_request(self, sources, target):
+        cmds, tg = self.model_desc()
         src = ";".join("%s/%s" % (hx(p.encode()), hx(c)) for p, c in sources) or "."
         return "clean %s %s %s %s" % (cmds, tg, src, hx(target.encode()))
 
@@ -218,6 +222,8 @@ class History:
         self.tamper = {}          # path -> counter of harness tamperings
         self.uptodate = {}        # command -> (fp, own) at the last time it was known up to date
         self.uncertain = False    # a failed build happened: expectations are re-established by the next successful build
+        self.dirty_sources = set()    # sources written by the harness since the last successful build that reached them
+        self.dirty_outputs = set()    # outputs tampered with since the last successful build that reached their producer
         self.nbuilds = 0
         for n in self.P.source_nodes():
             self.write_source(n, "src-%s-%d;" % (n, self.P.fresh()))
@@ -244,6 +250,7 @@ class History:
         ns = old if old is not None else self.logical_ns()
         os.utime(p, ns=(ns, ns))
         self.P.version[n] = self.P.fresh()
+        self.dirty_sources.add(n)
 
     def remove(self, n):
         p = self.path(n)
@@ -269,6 +276,7 @@ class History:
         for m in self.P.nodes():
             if m == n or m.startswith(n + "/"):
                 self.tamper[m] = self.tamper.get(m, 0) + 1
+                self.dirty_outputs.add(m)
 
     # ---- fingerprints for the run-log expectation
     def fp(self, c, memo):
@@ -568,6 +576,42 @@ class History:
             return "%s: %s -> %s" % (n, old, new)
         return self.try_edit(f)
 
+    # ---- the stored values and the model's validity verdicts
+    def read_db(self):
+        db = os.path.join(self.S, "build.db")
+        if not os.path.exists(db):
+            return {}
+        con = sqlite3.connect("file:%s?mode=ro" % db, uri=True)
+        try:
+            rows = con.execute("select k.key, r.value from rule_results r join key_names k on k.id = r.key_id").fetchall()
+        finally:
+            con.close()
+        return {(k if isinstance(k, str) else bytes(k).decode("latin1")): bytes(v) for k, v in rows}
+
+    def stats(self):
+        items = []
+        for n in self.P.nodes():
+            if is_virtual(n):
+                continue
+            try:
+                st = os.lstat(self.path(n)) if self.P.produced_by_tool(n) == "symlink" else os.stat(self.path(n))
+            except OSError:
+                continue
+            items.append("%s/%d:%d:%d:%d:%d:%d" % (hx(n.encode()), st.st_dev, st.st_ino, st.st_mode, st.st_size,
+                                                   st.st_mtime_ns // 10**9, st.st_mtime_ns % 10**9))
+        return ";".join(items) or "."
+
+    def verdicts(self, stored, keys):
+        """key -> V | I | O for every key that has a stored value: the model's isResultValid on the real stored bytes
+        and the real stat of the sandbox."""
+        cmds, tg = self.P.model_desc()
+        st = self.stats()
+        out = {}
+        for k in keys:
+            if k in stored and stored[k]:
+                out[k] = self.model.ask("valid %s %s . %s%s %s %s" % (cmds, tg, k[0], hx(k[1:].encode()), stored[k].hex(), st))
+        return out
+
     # ---- builds
     def run_llbuild(self, root, target, serial, db):
         rl = os.path.join(root, "runlog")
@@ -614,6 +658,11 @@ class History:
                     if o0["defn"] != o1["defn"] or o0["outs"] != o1["outs"] or \
                             any(n in o1["srcs"] and o0["srcs"][n] != o1["srcs"][n] for n in o0["srcs"]):
                         must.add(c)
+        # the model's verdict on what the database holds, in the world as it is before the build
+        reach_nodes = list(dict.fromkeys([n for c in reach for n in P.cmds[c]["inputs"] + P.cmds[c]["outputs"]] + list(tnodes)))
+        keys = ["C" + c for c in reach] + ["N" + n for n in reach_nodes]
+        pre = self.verdicts(self.read_db(), keys)
+        unchanged_def = lambda c: c in self.uptodate and self.uptodate[c][1]["defn"] == owns[c]["defn"]
         rc, out, err, ran = self.run_llbuild(self.S, tname, serial, os.path.join(self.S, "build.db"))
         self.nbuilds += 1
         muts = tuple(self.pending)
@@ -688,6 +737,34 @@ class History:
             rp.update(ran=ran)
             self.rp = rp
             raise HistoryFailure("c08-null-build-runs", "a build right after a successful build of the same target ran %s" % ran, False)
+        # ---- correspondence of the model's validity predicates (real stored values, real stat)
+        post = self.verdicts(self.read_db(), keys)
+        vbad = None
+        if not self.uncertain:
+            for c in reach:
+                v = pre.get("C" + c)
+                if v is None or not unchanged_def(c):
+                    continue
+                tampered = [o for o in P.cmds[c]["outputs"] if o in self.dirty_outputs]
+                if v != "V" and c in must_not:
+                    vbad = ("C" + c, v, "the model finds the stored value of %s not valid although nothing it depends on was touched" % c)
+                elif v == "I" and P.cmds[c]["tool"] != "phony" and c not in ran:
+                    vbad = ("C" + c, v, "the model finds the stored value of %s invalid but llbuild did not run it again" % c)
+                elif v == "V" and tampered:
+                    vbad = ("C" + c, v, "the model finds the stored value of %s valid although its output %s was deleted or overwritten" % (c, tampered[0]))
+            for n in reach_nodes:
+                v = pre.get("N" + n)
+                if v == "V" and n in self.dirty_sources and not P.producers(n) and not is_virtual(n):
+                    vbad = ("N" + n, v, "the model finds the stored value of input node %s valid although the harness edited the file" % n)
+        for k, v in post.items():
+            if v != "V":
+                vbad = (k, v, "after a successful build the model finds the value stored for %s not valid (verdict %s)" % (k, v))
+        chk.cov["validity_verdicts_checked"] = chk.cov.get("validity_verdicts_checked", 0) + len(pre) + len(post)
+        chk.cov["validity_invalid_before_build"] = chk.cov.get("validity_invalid_before_build", 0) + sum(1 for v in pre.values() if v == "I")
+        if vbad:
+            rp.update(key=vbad[0], model_verdict=vbad[1], ran=ran, verdicts_before=pre, verdicts_after=post)
+            self.rp = rp
+            raise HistoryFailure("c08-validity-correspondence", vbad[2] + " (outputs nevertheless equal the clean build's)", False)
         # ---- correspondence of the model
         if mod is None:
             rp.update(model_answer=ans)
@@ -714,6 +791,8 @@ class History:
         self.uncertain = False
         for c in reach:
             self.uptodate[c] = (fps[c], owns[c])
+            self.dirty_outputs -= set(P.cmds[c]["outputs"])
+        self.dirty_sources -= set(reach_nodes)
         self.last_ok_target = tname
 
     def run(self):
@@ -755,7 +834,8 @@ def run_histories(chk, seeds):
                 rp = h.rp or dict(history_seed=seed, sandbox=h.S, operations=h.log, description=h.P.yaml())
                 chk.violation(e.key, e.what, rp, found_input=e.found,
                               broken="c08 oracle: incremental build vs clean build through llbuild" if e.found else
-                                     ("correspondence: BSys.RulesBS.clean" if "model" in e.key else "c08 run-set expectation"))
+                                     ("correspondence: BSys.RulesBS.clean" if "model" in e.key else
+                                      "correspondence: BSys.RulesBS.rule_valid" if "validity" in e.key else "c08 run-set expectation"))
             for e in h.log:
                 kinds[e["op"]] = kinds.get(e["op"], 0) + 1
             if idx < 2:
